@@ -9,6 +9,11 @@ import Ekit.Lemmas.Lists
 namespace Ekit.Lists
 open Ekit.Go
 
+/-- The translation of the CURRENT source of `calCapacity` (regenerated on every run by
+    harness/extract) is the function the shrink model and its lemmas were written against. -/
+theorem c04_calCapacity_matches_source (c l : Int) : Ekit.Gen.calCapacity c l = calCapacityRef c l :=
+  calCapacity_eq_ref c l
+
 /-! #### ArrayList -/
 
 /-- One call on an ArrayList returns what the abstract sequence returns and leaves contents equal
